@@ -16,6 +16,18 @@ ASSUMPTIONS = ["one fresh interpreter per configuration (PYSNARK_BACKEND value, 
                "operations of process_snark); oracle: the family of entry points driven and the tags in pysnark_vk / pysnark_log are "
                "those of the proof system the reported backend name stands for (libsnark: Pinocchio, libsnarkgg: Groth16), never both. "
                "What real libsnark does with the calls is outside this check",
+               "entry points (stand-in importable): besides the sequence above, every entry point of pysnark/libsnark/backend.py is driven "
+               "in an interpreter that has done nothing else (exit hook with autoprove on / operation keygen, prove, verify; "
+               "runtime.final(); prove() and its flags; process_snark; keygen_only, prove_only, verify_only), for libsnark and "
+               "libsnarkgg selected by PYSNARK_BACKEND, by pre-import and by auto-detection; multi-step flows share a directory; "
+               "per step: family of zk_*/zkgg_* calls, tags of keys/proofs handed in and of the files = family of the name reported",
+               "the documented auto-detection order is the literal DOCUMENTED_ORDER (not the registry extracted from the source): "
+               "README.md 'If the libsnark backend is available, it will be imported and used by default.', 'By default, if available, "
+               "the libsnark backend will be used.', Groth16 only 'by using the libsnarkgg backend: PYSNARK_BACKEND=libsnarkgg ...', "
+               "'(on Windows, simply run `python3 cube.py 33` since `qaptools` is the only available backend)'; the order of the "
+               "remaining entries is the registry of the pinned baseline 42fe8ea. Loadability is varied by what is installed: the "
+               "libsnark stand-in on the path or not, QAPTOOLS_BIN = the stub directory or an empty one, the flatbuffers stand-in on "
+               "the path or not, and the import-blocking finder",
                "flatbuffers is the stand-in; the qaptools binaries are failing stubs: CPython's import machinery is modelled in "
                "Model/Select.lean and validated only here"]
 PARTIAL = ["C19_name_identifies_partial excludes configurations with a pre-imported derived backend module (finding C19-derived-preimport)"]
@@ -23,6 +35,37 @@ INTERFACE = ["privval", "pubval", "zero", "one", "fieldinverse", "get_modulus", 
 NEVER = ["pysnark.libsnark.backend", "pysnark.libsnark.backendgg"]
 PROOF_SYSTEM = {"libsnark": "pinocchio", "libsnarkgg": "groth16"}       # what each registry name stands for (README)
 STUB_LOG = "libsnark_stub_calls.jsonl"
+# The DOCUMENTED auto-detection order, pinned here as a literal: the registry in Gen/Constants.lean is regenerated from
+# pysnark/runtime.py on every run, so it follows a change of the source and cannot be the yardstick for "first loadable
+# backend in the documented order".  Sources (README.md of the pinned tree, = docs/README.md):
+#   * "If the libsnark backend is available, it will be imported and used by default." / "By default, if available, the
+#     libsnark backend will be used."  -> libsnark is the head of the order, before every other backend;
+#   * "PySNARK with libsnark can use the more recent Groth16 proof system instead of traditional Pinocchio proofs by using the
+#     libsnarkgg backend: ... PYSNARK_BACKEND=libsnarkgg python3 cube.py 3"  -> Groth16 only on request: libsnarkgg after libsnark;
+#   * Installation section lists the optional backends as libsnark, qaptools, snarkjs; "(on Windows, simply run `python3
+#     cube.py 33` since `qaptools` is the only available backend)" -> qaptools is found by auto-detection when libsnark is not;
+#   * every zkinterface variant appears in the README only with an explicit PYSNARK_BACKEND=...; nobackend is the last resort
+#     ("nobackend" branch of the Binder notebook).  The relative order of these tail entries is the registry of the pinned
+#     baseline (pysnark/runtime.py l.10-19 at 42fe8ea), recorded here by hand.
+DOCUMENTED_ORDER = ["libsnark", "libsnarkgg", "qaptools", "snarkjs", "zkinterface", "zkifbellman", "zkifbulletproofs", "nobackend"]
+ZKIF_MODS = ["pysnark.zkinterface.backend", "pysnark.zkinterface.backendbellman", "pysnark.zkinterface.backendbulletproofs"]
+QAP_MOD = "pysnark.qaptools.backend"
+# Entry points of pysnark/libsnark/backend.py (and whatever backendgg exposes under the same names), each driven in a FRESH
+# interpreter: action -> proof-system specific stand-in functions (without the zk_/zkgg_ prefix) it has to reach
+ACTIONS = {"exit:autoprove": ["prover"], "exit:keygen": ["generator"], "exit:prove": ["prover"], "exit:verify": ["verifier_strong_IC"],
+           "final:autoprove": ["prover"], "final:keygen": ["generator"], "final:prove": ["prover"], "final:verify": ["verifier_strong_IC"],
+           "call:prove": ["prover"], "call:prove-nokeygen": ["prover"], "call:prove-quiet": ["prover"],
+           "call:process_snark:keygen": ["generator"], "call:process_snark:prove": ["prover"], "call:process_snark:verify": ["verifier_strong_IC"],
+           "call:keygen_only": ["generator"], "call:prove_only": ["prover"], "call:verify_only": ["verifier_strong_IC"]}
+KNOWN_PUBLIC = {"privval", "pubval", "zero", "one", "fieldinverse", "get_modulus", "add_constraint", "prove", "process_snark", "keygen_only",
+                "prove_only", "verify_only", "make_pubvals_file", "create_pubvals_from_file"}
+# flows: steps run one after the other in ONE directory, each step in a fresh interpreter; `a+b` = two actions in one interpreter
+FLOWS = [["exit:autoprove", "exit:autoprove"], ["final:autoprove"], ["call:prove", "call:prove-nokeygen"], ["call:prove-quiet"],
+         ["exit:keygen", "exit:prove", "exit:verify"], ["final:keygen", "final:prove", "final:verify"],
+         ["call:process_snark:keygen", "call:process_snark:prove", "call:process_snark:verify"],
+         ["call:keygen_only", "call:prove_only", "call:verify_only"],
+         ["exit:keygen", "call:prove_only", "final:verify"], ["call:keygen_only", "exit:prove", "call:process_snark:verify"],
+         ["call:process_snark:keygen+call:prove"], ["call:keygen_only+exit:autoprove"], ["exit:keygen", "call:prove_only+call:prove"]]
 EDGES = {"pysnark.zkinterface.backendbellman": ["pysnark.zkinterface.backend"],
          "pysnark.zkinterface.backendbulletproofs": ["pysnark.zkinterface.backend"],
          "pysnark.libsnark.backendgg": ["pysnark.libsnark.backend"]}
@@ -52,7 +95,47 @@ try:
     if R.backend is not None:
         out["modulus"] = R.backend.get_modulus() if hasattr(R.backend, "get_modulus") else None
         out["missing"] = [a for a in %r if not callable(getattr(R.backend, a, None))]
-    if cfg.get("libsnark_stub") and R.backend is not None and R.backend.__name__.startswith("pysnark.libsnark."):
+    if cfg.get("step") and R.backend is not None and R.backend.__name__.startswith("pysnark.libsnark."):
+        # ONE step of a flow: this interpreter has done nothing but select the backend and trace the circuit
+        B = R.backend
+        out["public"] = sorted(n for n, f in vars(B).items() if callable(f) and not n.startswith("_")
+                               and str(getattr(f, "__module__", "")).startswith("pysnark.libsnark"))
+        with contextlib.redirect_stdout(buf), contextlib.redirect_stderr(buf):
+            from pysnark.runtime import PubVal, PrivVal
+            if cfg.get("circuit") != "empty":
+                x = PubVal(3); y = PrivVal(4); z = x * y; z.assert_eq(12)
+        files3 = {"keygen": ("pysnark_pk", "pysnark_vk"), "prove": ("pysnark_pk", "pysnark_proof", "pysnark_pubvals"),
+                  "verify": ("pysnark_vk", "pysnark_pubvals", "pysnark_proof")}
+        res = {}
+        at_exit = False
+        for act in cfg["step"].split("+"):
+            kind, _, arg = act.partition(":")
+            try:
+                with contextlib.redirect_stdout(buf), contextlib.redirect_stderr(buf):
+                    if kind in ("exit", "final"):
+                        R.autoprove = (arg == "autoprove"); R.operation = None if arg == "autoprove" else arg; R.namevals = {}
+                        if kind == "final":
+                            R.final(); R.autoprove = False; R.operation = None
+                        else:
+                            at_exit = True
+                    elif arg == "prove": B.prove()
+                    elif arg == "prove-nokeygen": B.prove(do_keygen=False)
+                    elif arg == "prove-quiet": B.prove(True, False, False)
+                    elif arg.startswith("process_snark:"): B.process_snark(arg.split(":")[1], {})
+                    elif arg == "keygen_only": B.keygen_only(*files3["keygen"])
+                    elif arg == "prove_only": B.prove_only(*files3["prove"])
+                    elif arg == "verify_only": res["verified"] = B.verify_only(*files3["verify"])
+                    else: raise KeyError("harness: unknown action " + act)
+                res[act] = "left-to-the-exit-hook" if at_exit else "ok"
+            except BaseException as e:
+                res[act] = type(e).__name__ + ": " + str(e)[:100]
+        out["step_result"] = res
+        out["stdout"] = buf.getvalue()[-1500:]
+        print("@@" + json.dumps(out)); sys.stdout.flush()
+        if not at_exit:
+            os._exit(0)
+        out = None               # the interpreter ends the ordinary way: pysnark's own exit hook drives the backend
+    elif cfg.get("libsnark_stub") and R.backend is not None and R.backend.__name__.startswith("pysnark.libsnark."):
         # drive the proving step as runtime.final() does: the exit hook with autoprove, then the three process_snark operations
         drive = {}
         with contextlib.redirect_stdout(buf), contextlib.redirect_stderr(buf):
@@ -83,9 +166,10 @@ try:
 except BaseException as e:
     out["error"] = type(e).__name__
     out["errmsg"] = str(e)[:200]
-out["stdout"] = buf.getvalue()[-1500:]
-print("@@" + json.dumps(out))
-os._exit(0)
+if out is not None:
+    out["stdout"] = buf.getvalue()[-1500:]
+    print("@@" + json.dumps(out))
+    os._exit(0)
 ''' % (INTERFACE, STUB_LOG)
 
 
@@ -109,23 +193,76 @@ def closure_pre(pre):
     return out
 
 
+def eff_unloadable(cfg):
+    """modules whose import fails in this configuration: blocked by the finder, or naturally (package / executables absent)"""
+    unl = set(cfg["unloadable"])
+    if not cfg.get("libsnark_stub"): unl |= set(NEVER)                 # no `libsnark` package: ModuleNotFoundError
+    if cfg.get("no_fbshim"): unl |= set(ZKIF_MODS)                     # no `flatbuffers` package
+    if cfg.get("no_qaptools"): unl.add(QAP_MOD)                        # QAPTOOLS_BIN names a directory without qapgen
+    return closure_unloadable(unl)
+
+
+TAG_FILES = (("pysnark_vk", ["system"]), ("pysnark_ek", ["system"]), ("pysnark_log", ["proof", "system"]), ("pysnark_pk", ["system"]),
+             ("pysnark_proof", ["system"]))
+
+
+def run_child(cfg, d, log=None):
+    env = dict(os.environ)
+    env["PYTHONDONTWRITEBYTECODE"] = "1"
+    env.pop("PYSNARK_BACKEND", None)
+    if cfg["env"] is not None:
+        env["PYSNARK_BACKEND"] = cfg["env"]
+    env["QAPTOOLS_BIN"] = common.stub_dir("qaptools")
+    if cfg.get("no_qaptools"):
+        env["QAPTOOLS_BIN"] = os.path.join(d, "no-qaptools-here"); os.makedirs(env["QAPTOOLS_BIN"], exist_ok=True)
+    env["PYTHONPATH"] = os.pathsep.join(([] if cfg.get("no_fbshim") else [os.path.join(common.HARNESS, "fbshim")]) + [common.REPO] +
+                                        ([common.stub_dir("")] if cfg.get("libsnark_stub") else []))     # stand-in `libsnark`: child only
+    env.pop("LIBSNARK_STUB_LOG", None)
+    if log: env["LIBSNARK_STUB_LOG"] = log
+    pr = subprocess.run([common.PY, "-c", CHILD, json.dumps(cfg)], cwd=d, env=env, capture_output=True, text=True, timeout=120)
+    for l in pr.stdout.splitlines():
+        if l.startswith("@@"):
+            return json.loads(l[2:]), pr
+    return {"error": "no-report", "errmsg": (pr.stdout + pr.stderr)[-400:]}, pr
+
+
 def run_one(cfg):
     d = tempfile.mkdtemp(prefix="verif-c19-")
     try:
-        env = dict(os.environ)
-        env["PYTHONDONTWRITEBYTECODE"] = "1"
-        env.pop("PYSNARK_BACKEND", None)
-        if cfg["env"] is not None:
-            env["PYSNARK_BACKEND"] = cfg["env"]
-        env["QAPTOOLS_BIN"] = common.stub_dir("qaptools")
-        env["PYTHONPATH"] = os.pathsep.join([os.path.join(common.HARNESS, "fbshim"), common.REPO] +
-                                            ([common.stub_dir("")] if cfg.get("libsnark_stub") else []))     # stand-in `libsnark`: child only
-        env.pop("LIBSNARK_STUB_LOG", None)
-        pr = subprocess.run([common.PY, "-c", CHILD, json.dumps(cfg)], cwd=d, env=env, capture_output=True, text=True, timeout=120)
-        for l in pr.stdout.splitlines():
-            if l.startswith("@@"):
-                return json.loads(l[2:])
-        return {"error": "no-report", "errmsg": (pr.stdout + pr.stderr)[-400:]}
+        if not cfg.get("flow"):
+            return run_child(cfg, d)[0]
+        # a flow: every step in a fresh interpreter, all in this directory; what each step drove is read from its own log
+        first = None
+        steps = []
+        for i, step in enumerate(cfg["flow"]):
+            log = os.path.join(d, f"calls-{i}.jsonl")
+            o, pr = run_child(dict(cfg, step=step), d, log)
+            if first is None: first = o
+            try:
+                calls = [json.loads(l) for l in open(log)]
+            except OSError:
+                calls = []
+            tags = {}
+            for fn, path in TAG_FILES:
+                try:
+                    v = json.load(open(os.path.join(d, fn)))
+                    for k in path: v = v[k]
+                    tags[fn] = v
+                except Exception:
+                    tags[fn] = None
+            res = dict(o.get("step_result") or {})
+            tail = [l for l in pr.stderr.splitlines() if l.strip()]
+            if "Traceback (most recent call last)" in pr.stderr:
+                for a in res:
+                    if res[a] == "left-to-the-exit-hook": res[a] = "raised at exit: " + (tail[-1] if tail else "")[:120]
+            verdicts = [l.split("Verified ?")[1].strip() for l in ("\n".join(x for x in pr.stdout.splitlines() if not x.startswith("@@")) + "\n" + o.get("stdout", "")).splitlines()
+                        if "Verified ?" in l]
+            steps.append({"step": step, "name": o.get("name"), "module": o.get("module"), "error": o.get("error"), "result": res, "calls": calls,
+                          "tags": tags, "verified": verdicts, "public": o.get("public"), "driven_at_all": "step_result" in o, "rc": pr.returncode})
+            if "error" in o: break
+        first = dict(first); first.pop("step_result", None)
+        first["steps"] = steps
+        return first
     finally:
         shutil.rmtree(d, ignore_errors=True)
 
@@ -153,7 +290,39 @@ def gen(rnd, registry, n, exhaustive):
     for e in ("libsnark", "libsnarkgg"):
         cfgs.append({"env": e, "pre": [rnd.choice(loadable_mods)], "unloadable": [], "ipython": False, "libsnark_stub": True})
         cfgs.append({"env": e, "pre": [], "unloadable": [rnd.choice(loadable_mods)], "ipython": rnd.random() < 0.5, "libsnark_stub": True})
-    n += 30
+    # CLASS entry points: the stand-in importable, a libsnark backend selected by the environment / by pre-import / by
+    # auto-detection, and EVERY entry point of the backend driven in an interpreter that has done nothing else before
+    # (the exit hook with autoprove on and with each operation, runtime.final(), prove() with its flags, process_snark,
+    # keygen_only / prove_only / verify_only); multi-step flows share one directory (setup, prover, verifier)
+    selections = [("libsnark", []), ("libsnarkgg", []), (None, [NEVER[0]]), (None, [NEVER[1]]), (None, NEVER), (None, NEVER[::-1]),
+                  (None, []), ("bogus", []), ("libsnark", [NEVER[1]]), ("libsnarkgg", [NEVER[0]])]
+    for e, pre in selections:
+        for fl in FLOWS:
+            cfgs.append({"env": e, "pre": list(pre), "unloadable": [], "ipython": False, "libsnark_stub": True, "flow": list(fl),
+                         "circuit": "empty" if rnd.random() < 0.2 else "mul"})
+    for _ in range(6):          # random mixes of steps
+        e, pre = rnd.choice(selections)
+        k1 = rnd.choice(["exit:keygen", "final:keygen", "call:process_snark:keygen", "call:keygen_only"])
+        k2 = rnd.choice(["exit:prove", "final:prove", "call:process_snark:prove", "call:prove_only"])
+        k3 = rnd.choice(["exit:verify", "final:verify", "call:process_snark:verify", "call:verify_only"])
+        cfgs.append({"env": e, "pre": list(pre), "unloadable": [], "ipython": False, "libsnark_stub": True, "flow": [k1, k2, k3][:rnd.choice([1, 2, 3, 3])],
+                     "circuit": rnd.choice(["mul", "mul", "empty"])})
+    # CLASS loadability: nothing named (unset / unknown name), nothing pre-imported, and the set of loadable backends varied by
+    # what is installed: libsnark stand-in on the path or not (absent naturally, not blocked), qaptools executables or an empty
+    # directory, flatbuffers stand-in or not, optionally one more module blocked
+    for e in (None, "nosuchbackend"):
+        for stub in (True, False):
+            for nofb in (False, True):
+                for noqap in (False, True):
+                    c = {"env": e, "pre": [], "unloadable": [], "ipython": False, "no_fbshim": nofb, "no_qaptools": noqap}
+                    if stub: c["libsnark_stub"] = True
+                    cfgs.append(c)
+    for _ in range(8):
+        c = {"env": rnd.choice([None, "nosuchbackend", "LibSnark", "libsnark "]), "pre": [], "ipython": rnd.random() < 0.15,
+             "unloadable": rnd.sample(mods, rnd.choice([0, 1, 1, 2])), "no_fbshim": rnd.random() < 0.5, "no_qaptools": rnd.random() < 0.5}
+        if rnd.random() < 0.6: c["libsnark_stub"] = True
+        cfgs.append(c)
+    n += 30 + 10 * len(FLOWS) + 6 + 16 + 8
     while len(cfgs) < n:
         if rnd.random() < 0.3:
             pre = rnd.sample(mods, rnd.choice([0, 0, 1, 1, 2]))
@@ -182,23 +351,30 @@ def explore(ctx, extended=False, focus=None):
                         "zkifbulletproofs": c["bulletproofs_p"], "nobackend": c["nobackend_p"]}
     ex.rule = ("configurations over the registry extracted from the source: every PYSNARK_BACKEND value (each known name, unknown, empty, "
                "wrong case, unset) alone; every loadable backend module pre-imported, with and without an environment value; IPython; "
-               "then random combinations of pre-imports (several, any order), environment and unloadable modules; distinct = distinct "
-               "configurations")
+               "then random combinations of pre-imports (several, any order), environment and unloadable modules; libsnark stand-in: "
+               "every entry point of the libsnark backend in a fresh interpreter (13 flows x 10 ways of selecting libsnark / libsnarkgg, "
+               "plus random mixes); nothing named x {stand-in, flatbuffers, qaptools} installed or not, judged against the documented "
+               "order; distinct = distinct configurations")
     cfgs = gen(ctx.rnd, reg, ctx.n(80, 1200) * (2 if extended else 1), ctx.thorough())
     with cf.ThreadPoolExecutor(14) as pool:
         outs = list(pool.map(run_one, cfgs))
     lines = []
     for i, c in enumerate(cfgs):
         pre_closed = closure_pre(c["pre"])
-        lines.append(f"S|s{i}|{'-' if c['env'] is None else c['env']}|{','.join(pre_closed)}|{','.join(c['unloadable'])}|{int(c['ipython'])}")
+        lines.append(f"S|s{i}|{'-' if c['env'] is None else c['env']}|{','.join(pre_closed)}|{','.join(eff_unloadable(c))}|{int(c['ipython'])}")
     ml = common.lean_driver(lines)
     name_to_mod = dict((b[0], b[1]) for b in reg)
+    doc_rank = {nm: i for i, nm in enumerate(DOCUMENTED_ORDER)}
+    undriven = set()
     for c, o, m in zip(cfgs, outs, ml):
+        unl = eff_unloadable(c)
         ex.evaluations += 1
         ex.distinct.add(json.dumps(c, sort_keys=True))
         ex.count("env:" + ("unset" if c["env"] is None else "known" if c["env"] in name_to_mod else "unknown"))
         ex.count(f"npre:{len(c['pre'])}")
         ex.count("libsnark:" + ("stand-in-importable" if c.get("libsnark_stub") else "not-installed"))
+        ex.count("installed:" + ",".join(x for x, on in (("libsnark-stand-in", c.get("libsnark_stub")), ("flatbuffers", not c.get("no_fbshim")),
+                                                          ("qaptools", not c.get("no_qaptools"))) if on))
         mf = m.split("|")
         unknown_msg = "unknown backend in environment variables" in o.get("stdout", "")
         loaderr = sorted(l.split("Error loading backend ")[1].split(":")[0] for l in o.get("stdout", "").splitlines() if "Error loading backend" in l)
@@ -218,9 +394,9 @@ def explore(ctx, extended=False, focus=None):
         rep = {"config": c, "observed": {k: o.get(k) for k in ("name", "module", "modulus", "error", "missing")}}
         if "error" in o:
             # failing loudly is right only for a known, unloadable name in the environment
-            known_unloadable = c["env"] in name_to_mod and name_to_mod[c["env"]] in c["unloadable"] and not \
+            known_unloadable = c["env"] in name_to_mod and name_to_mod[c["env"]] in unl and not \
                 any(mod in closure_pre(c["pre"]) for mod in name_to_mod.values())
-            if not known_unloadable and o.get("error") not in (None,) and not (all(x in c["unloadable"] for x in name_to_mod.values())):
+            if not known_unloadable and o.get("error") not in (None,) and not (all(x in unl for x in name_to_mod.values())):
                 if mf[1] == "ok":
                     ex.violations.append(Violation({"dev": "raises"}, f"selection raised {o.get('error')}: {o.get('errmsg', '')[:80]}", rep))
             continue
@@ -236,10 +412,18 @@ def explore(ctx, extended=False, focus=None):
             if module != name_to_mod[c["env"]]:
                 ex.violations.append(Violation({"dev": "env-not-honoured"}, f"PYSNARK_BACKEND={c['env']} but module in use is {module}", rep))
         else:
-            first = next((mod for (nm, mod) in reg if mod not in c["unloadable"]), None)
-            exp = "pysnark.nobackend" if c["ipython"] and "pysnark.nobackend" not in c["unloadable"] else first
-            if module != exp:
-                ex.violations.append(Violation({"dev": "auto-detect-order"}, f"auto-detection chose {module}, first loadable in documented order is {exp}", rep))
+            # the yardstick is the DOCUMENTED order (literal above), not the registry read from the source; a registry entry the
+            # documentation does not know ranks after the documented ones, in registry order
+            ranked = sorted(((doc_rank.get(nm, len(doc_rank) + i), nm, mod) for i, (nm, mod) in enumerate(reg)))
+            first = next(((nm, mod) for (_, nm, mod) in ranked if mod not in unl), (None, None))
+            exp_name, exp = ("nobackend", "pysnark.nobackend") if c["ipython"] and "pysnark.nobackend" not in unl else first
+            ex.count("auto-detect-expected:" + str(exp_name))
+            if module != exp or name != exp_name:
+                ex.violations.append(Violation({"dev": "auto-detect-order", "chosen": name, "documented_first_loadable": exp_name,
+                                                "env": "unset" if c["env"] is None else "unknown-name"},
+                                               f"nothing named (PYSNARK_BACKEND={c['env']!r}), nothing pre-imported, loadable in documented order: "
+                                               f"{[nm for (_, nm, mod) in ranked if mod not in unl]}: auto-detection chose {name} ({module}), the first "
+                                               f"loadable backend in the documented order is {exp_name} ({exp})", rep))
             if c["env"] is not None and not unknown_msg:
                 ex.violations.append(Violation({"dev": "unknown-not-reported"}, f"unknown backend name {c['env']!r} was not reported", rep))
         # (b) the reported name identifies module and field
@@ -275,11 +459,52 @@ def explore(ctx, extended=False, focus=None):
             if bad_steps:
                 ex.violations.append(Violation({"dev": "proving-step-raises", "name": name, "step": sorted(bad_steps)[0]},
                                                f"backend {name}: driving the proving step raised {bad_steps}", rep))
+        # (e) every entry point, each in a fresh interpreter: the family driven is the one the name reported THERE stands for
+        for st in o.get("steps") or []:
+            sname = st.get("name")
+            want = PROOF_SYSTEM.get(sname)
+            acts = st["step"].split("+")
+            ex.count("entry:" + st["step"])
+            if st.get("public"):
+                undriven |= set(st["public"]) - KNOWN_PUBLIC
+            if want is None or not st.get("driven_at_all"):
+                continue                                        # another backend was selected: nothing of libsnark to drive
+            derived = bool([d for d in pre_closed if d in EDGES])
+            sel = "pre-import" if c["pre"] else "environment" if c["env"] in name_to_mod else "auto-detection"
+            fcalls = [x for x in st["calls"] if str(x.get("fn", "")).startswith(("zk_", "zkgg_"))]
+            fams = sorted({x.get("system") for x in fcalls})
+            fns = [x.get("fn") for x in fcalls]
+            handed = sorted({x.get(k) for x in fcalls for k in ("key_system", "proof_system") if x.get(k)})
+            tagged = sorted({v for v in (st.get("tags") or {}).values() if v})
+            srep = dict(rep, step=st["step"], flow=c["flow"], calls=fns, tags=st.get("tags"), result=st.get("result"), reported_in_step=sname)
+            ex.count("entry-drove:" + ("+".join(fams) or "none"))
+            bad = {k: v for k, v in st["result"].items() if k != "verified" and v not in ("ok", "left-to-the-exit-hook")}
+            if bad:
+                ex.violations.append(Violation({"dev": "entry-point-raises", "name": sname, "entry": st["step"], "selected_by": sel,
+                                                "derived_preimported": derived},
+                                               f"backend {sname}, entry point {st['step']} (flow {c['flow']}, fresh interpreter): {bad}", srep))
+                break
+            prefix = {"pinocchio": "zk_", "groth16": "zkgg_"}[want]
+            missing = [prefix + f for a in acts for f in ACTIONS[a] if not any(fn in ("zk_" + f, "zkgg_" + f) for fn in fns)]
+            if missing:
+                ex.violations.append(Violation({"dev": "entry-point-drives-nothing", "name": sname, "entry": st["step"], "selected_by": sel},
+                                               f"backend {sname}, entry point {st['step']}: no call of {missing} (calls: {fns})", srep))
+            elif fams != [want] or (handed and handed != [want]) or (tagged and tagged != [want]):
+                ex.violations.append(Violation({"dev": "name-proof-system-mismatch", "name": sname, "derived_preimported": derived,
+                                                "driven": "+".join(fams), "selected_by": sel, "entry": st["step"]},
+                                               f"reported name {sname} ({want}), selected by {sel} (PYSNARK_BACKEND={c['env']}, pre-imported: {c['pre']}); "
+                                               f"entry point {st['step']} in a fresh interpreter (flow {c['flow']}) drove the {'+'.join(fams)} "
+                                               f"family: {fns}; keys/proofs handed in: {handed}; files: {st.get('tags')}", srep))
+            elif any(v != "True" for v in st.get("verified", [])) or st["result"].get("verified") is False:
+                ex.violations.append(Violation({"dev": "own-proof-rejected", "name": sname, "entry": st["step"], "selected_by": sel},
+                                               f"backend {sname}, entry point {st['step']}: the proof made two steps earlier in the same flow is rejected", srep))
         # (c) complete interface
         if o.get("missing"):
             ex.violations.append(Violation({"dev": "incomplete-interface"}, f"backend {name} ({module}) lacks {o['missing']}", rep))
         if len(ex.samples) < 5:
             ex.samples.append({"config": c, "observed": rep["observed"]})
+    if undriven:
+        ex.notes.append(f"public functions of the selected libsnark backend module that no flow drives: {sorted(undriven)}")
     return ex
 
 
